@@ -331,6 +331,36 @@ pub fn inf_bound_history(variant: usize) -> Vec<(String, String)> {
     out
 }
 
+/// A history through an overflowed solve: a problem whose cost is ~1e300 ends NumericalError with non-finite iterates
+/// and work vectors; the cost is then repaired through update_q (a sane vector, or another huge one) and the solver is
+/// run again.  The run must be a fresh solver's (this problem has equilibration off: bit for bit).
+pub fn overflow_history(variant: usize) -> Option<String> {
+    let p0: Problem = serde_json::from_str(include_str!("../data/overflow_case.json")).expect("embedded case");
+    let sane = variant % 2 == 0;
+    let res = catch_unwind(AssertUnwindSafe(|| -> Option<String> {
+        let q2: Vec<f64> = if sane { (0..p0.q.len()).map(|k| 0.5 + k as f64).collect() } else { p0.q.iter().enumerate().map(|(k, v)| v * 1.5 + 0.25 * (k as f64 + 1.0)).collect() };
+        let (P, A) = (p0.P.to_clarabel(), p0.A.to_clarabel());
+        let mut solver = DefaultSolver::new(&P, &p0.q, &A, &p0.b, &p0.clarabel_cones(), p0.settings());
+        solver.solve();
+        if solver.solution.status != SolverStatus::NumericalError { return None; }   // (the premise: an overflowed first solve)
+        let r = res_name(solver.update_q(&q2));
+        if r != "Ok" { return Some(format!("overflow history: update_q returned {}", r)); }
+        solver.solve();
+        let mut fresh = DefaultSolver::new(&P, &q2, &A, &p0.b, &p0.clarabel_cones(), p0.settings());
+        fresh.solve();
+        let (s1, s2) = (&solver.solution, &fresh.solution);
+        let same = s1.status == s2.status && s1.iterations == s2.iterations
+            && (s1.obj_val.to_bits() == s2.obj_val.to_bits() || (s1.obj_val.is_nan() && s2.obj_val.is_nan()))
+            && s1.x.iter().zip(&s2.x).all(|(a, b)| a.to_bits() == b.to_bits() || (a.is_nan() && b.is_nan()));
+        if !same {
+            return Some(format!("after a solve that overflowed (|q| ~ 1e300 -> NumericalError) and update_q with {} data, the solver ends {:?} after {} iterations (obj {}) but a fresh solver on the same data ends {:?} after {} (obj {})",
+                                if sane { "sane" } else { "huge" }, s1.status, s1.iterations, s1.obj_val, s2.status, s2.iterations, s2.obj_val));
+        }
+        None
+    }));
+    match res { Ok(r) => r, Err(e) => Some(format!("panic: {}", crate::rec_ipm::panic_msg(e))) }
+}
+
 /// A history in which wall-clock time matters: a finite time_limit, and every solve is delayed (scripted sleep at
 /// iteration 1) by 40% of the limit.  Each solve alone stays far inside the limit, so every solve of the updated
 /// solver must end like a fresh solver's (which is delayed in the same way); only time charged from *earlier*
@@ -415,6 +445,12 @@ pub fn replay_file(path: &str, out: &str, seed: u64, every: usize) -> Value {
             for (class, m) in inf_bound_history(v as usize) { bad.push(json!({"behaviour": b, "variant": v, "mismatch": m, "class": class})); }
             continue;
         }
+        if let Some(v) = b.get("overflow").and_then(|x| x.as_u64()) {
+            n += 1;
+            timed_done = true;
+            if let Some(m) = overflow_history(v as usize) { bad.push(json!({"behaviour": b, "variant": v, "mismatch": m, "class": "solve_after_overflowed_solve"})); }
+            continue;
+        }
         if b.get("timed").is_some() {
             n += 1;
             timed_done = true;
@@ -438,6 +474,15 @@ pub fn replay_file(path: &str, out: &str, seed: u64, every: usize) -> Value {
             n += 1;
             for (class, m) in inf_bound_history(v) {
                 bad.push(json!({"behaviour": {"blocked": "none", "hist": [], "infb": v}, "variant": v, "mismatch": m, "class": class}));
+            }
+        }
+    }
+    // a history through an overflowed solve
+    if !timed_done {
+        for v in 0..2usize {
+            n += 1;
+            if let Some(m) = overflow_history(v) {
+                bad.push(json!({"behaviour": {"blocked": "none", "hist": [], "overflow": v}, "variant": v, "mismatch": m, "class": "solve_after_overflowed_solve"}));
             }
         }
     }
